@@ -211,6 +211,12 @@ EndStep(e) ==
   /\ v' = [v EXCEPT !.C04 = F(F(@, Len(e.ords) # mkt.nextId, "C04:closure-count"),
                               \E k \in 1..Len(e.ords) : e.ords[k][1] < mkt.nextId /\ bad(k), "C04:closure")]
 
+\* the code raised inside a valid operation (clock step, getter): attributed to the property that governs it
+CrashStep(e) ==
+  /\ Keep /\ sync' = FALSE
+  /\ v' = IF e.op = "tick" THEN [v EXCEPT !.C04 = F(@, TRUE, "C04:clock-step-raised-" \o e.exc)]
+          ELSE [v EXCEPT !.C08 = F(@, TRUE, "C08:" \o e.op \o "-raised-" \o e.exc)]
+
 Step ==
   /\ l <= Len(Ev)
   /\ l' = l + 1 /\ tid' = tid
@@ -223,6 +229,7 @@ Step ==
             [] e.k = "run" -> RunStep(e)
             [] e.k = "probe" -> ProbeStep(e)
             [] e.k = "end" -> EndStep(e)
+            [] e.k = "crash" -> CrashStep(e)
 
 Done == l = Len(Ev) + 1
 Report == Done => PrintT(<<"VERDICT", tid, sync, v>>)
